@@ -237,7 +237,7 @@ def show(t):
     if not isinstance(t, list):
         return repr(t)
     k = t[0]
-    if k in ("this", "item", "up", "path", "obj", "k", "bin", "un", "fn"):
+    if k in ("this", "item", "up", "path", "obj", "k", "bin", "un", "fn", "lam"):
         return X.show(t)
     if k == "Int":
         via = t[4] if len(t) > 4 else "name"
